@@ -91,6 +91,38 @@ def run(args):
                         if not (abs(a - b) <= tol):
                             R.spec_fail(dict(kind="not-reciprocal"), f"bwd_euler/{backend}, dt={dt}: dV[{j}] by I at {i} = {a!r} but dV[{i}] by I at {j} = {b!r}",
                                         dict(i=i, j=j, **inp0), [float(a), float(b)])
+            # ---- 3b. the same identities when the electrical parameters reach the simulation at RUN TIME (data_set / trainables) instead
+            #      of through the tables: capacitance and axial resistivity by param_state, radius by params (charge balance, exact)
+            if dt == dts[0] and n >= 2:
+                half = sorted(rng.choice(n, size=max(1, n // 2), replace=False).tolist())    # chained calls, each on part of the rows
+                rest_ = [i for i in range(n) if i not in half]
+                for route, keys in (("capacitance", (("cm", "capacitance", 1.0),)),
+                                    ("capacitance+axial_resistivity+radius", (("cm", "capacitance", 1.0), ("ra", "axial_resistivity", 5000.0), ("r", "radius", 1.0)))):
+                    d2 = dict(d)
+                    for k_, _, dflt in keys:
+                        d2[k_] = [dflt] * n
+                    cell2 = build_cell(d2)                     # the TABLES hold default values for these keys
+                    cell2.delete_recordings(); cell2.record("v", verbose=False)
+                    idx_ = [i for i in range(n) if d["istim"][i] != 0.0] or [0]
+                    cell2.select(nodes=idx_).stimulate(jnp.asarray([[d["istim"][i]] for i in idx_]), verbose=False)
+                    pstate = None
+                    for rows_ in (half, rest_):                # data_set takes one value per call: chained calls, row by row
+                        for k_, name_, _ in keys:
+                            for i_ in rows_:
+                                pstate = cell2.select(nodes=[i_]).data_set(name_, float(d[k_][i_]), pstate)
+                    for backend in BACKENDS:
+                        try:
+                            rec2 = np.asarray(jx.integrate(cell2, param_state=pstate, delta_t=dt, solver="bwd_euler", voltage_solver=backend), dtype=np.float64)
+                        except AssertionError:
+                            continue
+                        x2 = rec2[:, 1]
+                        R.evaluations += 1; R.count("run-time-parameters:" + route)
+                        o2 = parse_cable(drv.batch([cable_line(d, dt, x2, "bwd_euler")])[0])
+                        scale = sum(C[i] * (abs(x2[i]) + abs(d["v"][i])) / dt + 1e-3 * abs(d["istim"][i]) + A[i] * 1000 * d["g"][i] * (abs(x2[i]) + abs(d["e"][i])) for i in range(n))
+                        if not (abs(o2["charge"]) <= 1e-9 * scale):
+                            R.spec_fail(dict(kind="charge-not-conserved", solver="bwd_euler", route="data_set"),
+                                        f"bwd_euler/{backend}: {route} supplied by data_set: charge imbalance {o2['charge']:.3g} µA (scale {scale:.3g})",
+                                        dict(solver="bwd_euler", route="data_set: " + route, rows_first=half, cell=d, dt=dt, backend=backend), x2.tolist(), imbalance=o2["charge"])
             # ---- 4. uniform model stays uniform (all v = E = const, no stimulus), one backend per dt
             du = dict(d); c0 = float(rng.uniform(-90, -30)); du["v"] = [c0] * n; du["e"] = [c0] * n; du["istim"] = [0.0] * n
             cu = build_cell(du)
